@@ -249,10 +249,12 @@ Fixpoint find_stop (l : list sigk) (p : nat) : option (nat * sigk) :=
 
 Definition is_ok (o : obs) : bool := res_eqb (o_res o) ROk.
 
-(* an error: zero descriptor, no outcome *)
+(* an error, after exactly these calls. What accompanies an error (descriptor,
+   outcomes) is not constrained by the property text, hence not by the oracle;
+   the correspondence check still compares them with the model, and
+   C10_errors proves them zero / nil for the model. *)
 Definition failed_with (o : obs) (log : list ev) : bool :=
-  negb (is_ok o) && dsc_eqb (o_desc o) DZero && outs_eqb (o_outs o) ONone
-  && list_eqb ev_eqb (o_log o) log.
+  negb (is_ok o) && list_eqb ev_eqb (o_log o) log.
 
 Definition failed_as (r : res) (o : obs) (log : list ev) : bool :=
   res_eqb (o_res o) r && failed_with o log.
